@@ -130,6 +130,10 @@ func (it *segmentIterator) next() (record, error) {
 
 	// Read key, value and checksum.
 	recordSize := encodedRecordSize(keySize + valueSize)
+	if int64(it.offset)+int64(recordSize) > it.f.size {
+		// The record doesn't fit in the file, don't allocate memory for it.
+		return record{}, io.ErrUnexpectedEOF
+	}
 	data := make([]byte, recordSize)
 	copy(data, kvSizeBuf)
 	if _, err := io.ReadFull(it.r, data[6:]); err != nil {
